@@ -120,7 +120,7 @@ class Resolver:
                 if p and name.startswith(p): prefix = p
             m = _IMPL_AT.search(name)
             mc = re.match(r'^fn .+?\(_1: (?:&mut |&)?\{closure@([^}]*)\}', fn.sig)
-            if mc and '{closure#' in name: self.closure_fn[(prefix, mc.group(1))] = name
+            if mc and '{closure#' in name: self.closure_fn.setdefault((prefix, mc.group(1)), []).append(name)
             if 'promoted[' in name: continue
             if m:
                 tail = name[m.end():]
@@ -139,9 +139,8 @@ class Resolver:
                     a0 = fn.argtys[0] if fn.argtys else ''
                     t0 = norm_type(a0).lstrip('&')
                     if t0 in ('', 'Self') or not fn.argtys or not re.match(r'^&?(mut )?\w', a0) or method in ('from_syntax', 'default'):
-                        r = norm_type(fn.ret)
-                        mm = re.match(r'^(?:Option|Result)?\(?(\w+)', r.replace('Option', '', 1) if r.startswith('Option') else r)
-                        t0 = mm.group(1) if mm else t0
+                        ids = [w for w in re.findall(r'[A-Za-z_]\w*', re.sub(r'(\w+::)+', '', fn.ret)) if w not in ('Option', 'Result', 'Vec', 'Box', 'Self', 'std', 'core')]
+                        t0 = ids[0] if ids else t0
                     if ty != '?' and method not in ('fmt',): pass
                     ty = t0 if ty == '?' or True else ty
                     trait = None if trait == '?' else trait
@@ -188,10 +187,19 @@ class Resolver:
         if r is None: raise Unsupported('cannot resolve ' + spec)
         return r
 
-    def closure(self, loc, hint_prefix=None):
-        for (p, l), f in self.closure_fn.items():
-            if l == loc and (hint_prefix is None or p == hint_prefix): return f
-        return None
+    def closure(self, loc, hint=None):
+        """MIR function of the closure written at loc. Macro-generated closures share one location: they are told apart by
+        their return type, which the caller's generic arguments (hint = callee text) name; closures of equal type are the same code"""
+        cands = []
+        for (p, l), fs in self.closure_fn.items():
+            if l == loc: cands.extend(fs)
+        if len(cands) <= 1: return cands[0] if cands else None
+        if hint:
+            for f in cands:
+                ret = self.fns[f].ret
+                inner = ret[len('Option<'):-1] if ret.startswith('Option<') and ret.endswith('>') else ret
+                if ('::<' + inner + ',') in hint or ('::<' + inner + '>') in hint: return f
+        raise Unsupported('ambiguous closure at ' + loc)
 
     def promoted(self, path, idx):
         hs = strip_turbofish(path); segs = hs.split('::'); meth = segs[-1]
@@ -229,7 +237,6 @@ class Resolver:
         m = re.match(r'^<(.+) as ([\w:]+)(?:<.*>)?>::(\w+)$', base)
         if m:
             ty = norm_type(m.group(1)); trait = m.group(2).rsplit('::', 1)[-1]; meth = m.group(3)
-            ty = self.tymap.get(ty, ty)
             if re.match(r'^&?[A-Z]\w?$|^&?Self$|^CF$', ty): return ('dyn', trait, meth, ty.lstrip('&'))
             try: return self.method(ty.lstrip('&'), meth, trait)
             except Unsupported: return None
